@@ -88,7 +88,8 @@ def _divisors(nu, nv):
 
 def _size_pairs(tier):
     if tier == 'quick':
-        return [(a, b) for a in range(2, 7) for b in range(2, 7)]
+        # + sample sizes beyond the small ones: more than 12 per direction, more than 256 points in total
+        return [(a, b) for a in range(2, 7) for b in range(2, 7)] + [(17, 16), (3, 25), (40, 2), (13, 9)]
     base = [(a, b) for a in range(2, 13) for b in range(2, 13)]
     big = [(25, 25), (40, 40), (25, 40), (40, 25), (2, 40), (40, 3), (5, 25), (25, 3), (25, 2), (3, 40), (40, 5)]
     return base + big
@@ -119,8 +120,8 @@ def _trim_specs(tier):
     return out
 
 
-TRIM_SIZES_Q = [(9, 9), (10, 7), (7, 11), (12, 12), (5, 5)]
-TRIM_SIZES_T = TRIM_SIZES_Q + [(6, 6), (8, 8), (11, 11), (12, 9), (9, 12), (2, 9), (9, 2), (17, 17), (25, 25), (40, 40), (25, 40)]
+TRIM_SIZES_Q = [(9, 9), (10, 7), (7, 11), (12, 12), (5, 5), (17, 17), (13, 20)]
+TRIM_SIZES_T = TRIM_SIZES_Q + [(6, 6), (8, 8), (11, 11), (12, 9), (9, 12), (2, 9), (9, 2), (25, 25), (40, 40), (25, 40), (7, 37)]
 EXPORT_FORMATS = ['obj', 'off', 'stl_ascii', 'stl_binary']
 
 
